@@ -113,7 +113,7 @@ def generate(rng, tier):
         "cwd": cwd,
         "root_arg": root_arg,
         "extra_args": extra_args,
-        "hashseed": rng.below(1 << 32), "respelled": respelled, "linked": linked,
+        "hashseed": rng.below(1 << 32), "respelled": respelled, "linked": linked, "tier": tier,
     }
 
 
@@ -239,7 +239,10 @@ def execute(case):
             plans.append(("crash_after", ["* mut %d * crash_after" % k], False))
             if e.op == "write":
                 n = e.n or 0
-                for pos in sorted({0, 1, n // 2, max(0, n - 1)}):
+                mids = {0, 1, n // 2, max(0, n - 1)}
+                if case.get("tier") == "thorough":
+                    mids |= {2, n // 4, 3 * n // 4, max(0, n - 2), n} | set(range(0, min(n, 64), 7))
+                for pos in sorted(mids):
                     plans.append(("crash_mid", ["* mut %d * crash_mid %d" % (k, pos)], False))
                 for pos in sorted(p for p in {0, 1, n // 2} if p < n):
                     plans.append(("torn", ["* mut %d * torn %d 28" % (k, pos)], False))
